@@ -173,13 +173,15 @@ func race(text string, timeoutS int, tag string, which []int) (status, solver, o
 
 // splitConj splits "(=> G (and a b c))" / "(and a b c)" into pieces with the same guard.
 func splitConj(f string) []string {
-	guard := ""
+	var guards []string
 	body := f
-	if strings.HasPrefix(f, "(=> ") {
-		parts := sexprArgs(f)
-		if len(parts) == 2 {
-			guard, body = parts[0], parts[1]
+	for strings.HasPrefix(body, "(=> ") {
+		parts := sexprArgs(body)
+		if len(parts) != 2 {
+			break
 		}
+		guards = append(guards, parts[0])
+		body = parts[1]
 	}
 	if !strings.HasPrefix(body, "(and ") {
 		return nil
@@ -190,11 +192,10 @@ func splitConj(f string) []string {
 	}
 	var out []string
 	for _, c := range cs {
-		if guard != "" {
-			out = append(out, sx("=>", guard, c))
-		} else {
-			out = append(out, c)
+		for i := len(guards) - 1; i >= 0; i-- {
+			c = sx("=>", guards[i], c)
 		}
+		out = append(out, c)
 	}
 	return out
 }
